@@ -3,7 +3,14 @@ package main
 // SplitMix64: every random choice of the harness derives from one state seeded by VERIF_SEED.
 type Rand struct{ s uint64 }
 
-func NewRand(seed uint64) *Rand { return &Rand{s: seed*0x9E3779B97F4A7C15 + 0x1234567} }
+// The seed is passed through the output function once: with a state that is linear in the seed
+// (seed*gamma + c), the stream of seed n+1 is the stream of seed n shifted by one draw, so "different seeds"
+// would re-run almost the same cases.
+func NewRand(seed uint64) *Rand {
+	r := &Rand{s: seed*0x9E3779B97F4A7C15 + 0x1234567}
+	r.s = r.U64() ^ (seed << 32)
+	return r
+}
 
 func (r *Rand) U64() uint64 {
 	r.s += 0x9E3779B97F4A7C15
